@@ -37,6 +37,20 @@ theorem lookup_mem {c : Char} {r : String} {t : List (Char × String)} (h : t.lo
       simp [this, h]
     · exact List.mem_cons_of_mem _ (ih h)
 
+theorem lookup_mem' {α β : Type} [BEq α] [LawfulBEq α] {c : α} {r : β} {t : List (α × β)} (h : t.lookup c = some r) :
+    (c, r) ∈ t := by
+  induction t with
+  | nil => simp [List.lookup] at h
+  | cons e rest ih =>
+    obtain ⟨k, v⟩ := e
+    simp only [List.lookup] at h
+    split at h
+    · rename_i heq
+      simp only [Option.some.injEq] at h
+      have : c = k := by simpa using heq
+      simp [this, h]
+    · exact List.mem_cons_of_mem _ (ih h)
+
 /-- **escaped text contains none of `<`, `>`, `"`, `'`**, for every input text -/
 theorem escape_safe (s : Str) :
     ∀ d ∈ escapeWith Gen.Escape.table s, Cls.escaped.allows d = true := by
